@@ -110,6 +110,61 @@ def run_mc(chk, pid, quick):
             chk.notes.append("deviation switch Stale=TRUE violates %s (expected)" % res.errors[:1])
 
 
+def run_apalache(chk, quick):
+    """C04 for unbounded n: discharge the inductive obligations of
+    spec/BudgetInd.tla.template with Apalache for a grid of (w, budget)."""
+    import shutil
+    import subprocess
+    from concurrent.futures import ThreadPoolExecutor
+
+    grid = [(4, 1, 4)] if quick else [(w, bn, bd) for w in (2, 4, 8, 100)
+                                                 for bn, bd in ((1, 10), (1, 4), (1, 2), (1, 1))]
+    tpl = open(os.path.join(tlc.SPEC_DIR, "BudgetInd.tla.template")).read()
+    jobs = [(w, bn, bd, False) for w, bn, bd in grid] + [(grid[0][0], grid[0][1], grid[0][2], True)]
+    with tlc.Scratch() as scratch:
+        def one(job):
+            w, bn, bd, leq = job
+            d = os.path.join(scratch, "apa-%d-%d-%d-%s" % (w, bn, bd, leq))
+            os.makedirs(d)
+            text = (tpl.replace("@W@", str(w)).replace("@BN@", str(bn)).replace("@BD@", str(bd))
+                    .replace("@LEQ@", "TRUE" if leq else "FALSE"))
+            with open(os.path.join(d, "BudgetInd.tla"), "w") as f:
+                f.write(text)
+            out = []
+            env = dict(os.environ, JAVA_TOOL_OPTIONS="-Djava.io.tmpdir=%s" % d, TMPDIR=d)
+            for init, inv, length in (("Init", "IndInv", "0"), ("IndInit", "Both", "1")):
+                p = subprocess.run(["apalache-mc", "check", "--init=" + init, "--inv=" + inv, "--length=" + length,
+                                    "--out-dir=" + os.path.join(d, "out"), "BudgetInd.tla"], cwd=d, env=env,
+                                   stdout=subprocess.PIPE, stderr=subprocess.STDOUT, text=True, timeout=900)
+                out.append("EXITCODE: OK" in p.stdout)
+                if not out[-1] and "violat" not in p.stdout.lower() and "EXITCODE: ERROR (12)" not in p.stdout:
+                    out[-1] = None  # apalache itself failed
+                    out.append(p.stdout[-600:])
+                    break
+            shutil.rmtree(d, ignore_errors=True)
+            return job, out
+
+        with ThreadPoolExecutor(max_workers=6) as ex:
+            results = list(ex.map(one, jobs))
+    obligations = discharged = 0
+    for (w, bn, bd, leq), out in results:
+        if None in out:
+            raise tlc.MachineryError("apalache failed on BudgetInd W=%d B=%d/%d: %s" % (w, bn, bd, out[-1]))
+        if leq:
+            if all(out):
+                raise tlc.MachineryError("BudgetInd without the budget guard still satisfies the inductive step "
+                                         "(the obligation is vacuous)")
+            chk.notes.append("BudgetInd without the budget guard is rejected by Apalache (expected)")
+            continue
+        obligations += 2
+        discharged += sum(1 for o in out if o)
+        if not all(out):
+            raise tlc.MachineryError("inductive invariant of BudgetInd not discharged for W=%d B=%d/%d" % (w, bn, bd))
+    chk.extra["apalache_inductive_obligations"] = obligations
+    chk.extra["apalache_discharged"] = discharged
+    chk.extra["apalache_grid"] = ["w=%d budget=%d/%d" % g for g in grid]
+
+
 # --------------------------------------------------------------------------
 def _exact_job(arg):
     kind, prm, stream, cuts, twice, seed = arg
@@ -256,6 +311,8 @@ def main_for(pid, tier="quick", seed=0):
                 "random chunkings and inserted extra queries. distinct = (kind, parameters, stream, cuts); "
                 "non-trivial = at least 2 instances and at least one granted label or one budget refusal")
     run_mc(chk, pid, quick)
+    if pid == "C04":
+        run_apalache(chk, quick)
     cases = chk.generate("BudgetGen", "BudgetGen.cfg" if quick else "BudgetGen5.cfg")
     jobs = exact_jobs(chk, pid, quick, rng, cases)
     if pid == "C10":
